@@ -6,7 +6,7 @@ use vstd::std_specs::cmp::*;
 use std::collections::HashMap;
 use std::collections::HashSet;
 use vstd::std_specs::hash::*;
-//@broadcast vstd::std_specs::hash::group_hash_axioms
+//@broadcast vstd::std_specs::hash::group_hash_axioms, keymodels::group_key_models
 
 pub trait ContentAddrStore {}
 
@@ -187,3 +187,30 @@ pub struct PoolKey { pub left: Denom, pub right: Denom }
 
 pub type FxHashMap<K, V> = HashMap<K, V>;
 pub type FxHashSet<K> = HashSet<K>;
+
+// ---- Bytes / Vec conversions, hash-map key models (derived Hash + Eq agree: A-ITER)
+pub uninterp spec fn bytes_of(s: Seq<u8>) -> Bytes;
+pub broadcast axiom fn axiom_bytes_of(s: Seq<u8>) ensures (#[trigger] bytes_of(s))@ == s;
+impl FromSpecImpl<Vec<u8>> for Bytes { open spec fn obeys_from_spec() -> bool { true } open spec fn from_spec(v: Vec<u8>) -> Bytes { bytes_of(v@) } }
+impl From<Vec<u8>> for Bytes { #[verifier::external_body] fn from(v: Vec<u8>) -> (r: Bytes) { unimplemented!() } }
+pub mod keymodels {
+    use super::*;
+    pub broadcast axiom fn axiom_key_model_coinid() ensures #[trigger] obeys_key_model::<CoinID>();
+    pub broadcast axiom fn axiom_key_model_denom() ensures #[trigger] obeys_key_model::<Denom>();
+    pub broadcast axiom fn axiom_key_model_address() ensures #[trigger] obeys_key_model::<Address>();
+    pub broadcast axiom fn axiom_key_model_txhash() ensures #[trigger] obeys_key_model::<TxHash>();
+    pub broadcast group group_key_models { axiom_key_model_coinid, axiom_key_model_denom, axiom_key_model_address, axiom_key_model_txhash }
+}
+pub broadcast group group_core_axioms { axiom_bytes_ext, axiom_bytes_of, axiom_weight_bound, axiom_header_hash_inj }
+
+// ---- TxHash::to_string() == "<hex literal>": modelled as an opaque comparison (Verus has no str reasoning)
+#[verifier::external_body] pub struct HexString { _p: u8 }
+impl HexString { pub uninterp spec fn src(&self) -> TxHash; }
+pub struct StrLit {}
+pub uninterp spec fn is_grandfathered(h: TxHash) -> bool;   // hex(h) == INFLATION_BUG_TX_HASH
+impl TxHash { #[verifier::external_body] pub fn to_string(&self) -> (r: HexString) ensures r.src() == *self { unimplemented!() } }
+impl PartialEqSpecImpl<StrLit> for HexString {
+    open spec fn obeys_eq_spec() -> bool { true }
+    open spec fn eq_spec(&self, other: &StrLit) -> bool { is_grandfathered(self.src()) }
+}
+impl PartialEq<StrLit> for HexString { #[verifier::external_body] fn eq(&self, other: &StrLit) -> (r: bool) { unimplemented!() } }
